@@ -75,6 +75,21 @@ Theorem C20_sequences_lock_identity : forall cs : list (stmt * path),
 Proof. exact sequences_identity. Qed.
 Print Assumptions C20_sequences_lock_identity.
 
+(* the STORE object itself is created once: with an accepted shape of the shell class's singleton guard
+   (`X.storage_instance is None`, or `not X.storage_instance` while the inner class defines neither __len__ nor
+   __bool__) constructing further shells (importers, topologies, property-graph handles) never replaces an
+   existing store, whatever it holds -- so, with C20_lock_identity_constant, its lock and counters are the same
+   objects for the whole process; both regenerated shell classes have an accepted shape *)
+Theorem C20_singleton_identity : forall sh, singleton_ok sh = true -> forall n, replaces sh (Some n) = false.
+Proof. exact singleton_identity. Qed.
+Print Assumptions C20_singleton_identity.
+
+Theorem C20_store_identity_constant :
+  singleton_ok shared_singleton = true /\ singleton_ok disjoint_singleton = true /\
+  forall n, replaces shared_singleton (Some n) = false /\ replaces disjoint_singleton (Some n) = false.
+Proof. exact (conj (proj1 singletons_ok) (conj (proj2 singletons_ok) store_identity)). Qed.
+Print Assumptions C20_store_identity_constant.
+
 (* counter discipline of every regenerated method: counter reads/writes and node-map mutations only while
    holding the lock and in an order that keeps live ids below the counter (data automaton, declared faults) *)
 Theorem C20_all_methods_counter_discipline :
@@ -216,3 +231,10 @@ Example C20_raising_statement_outside_try :
   map ev_code (evs_of (run AllFaults tidy_del_graph [true; true])) = [(1, 1); (2, 0); (3, 0); (4, 0)] /\
   balanced (evs_of (run AllFaults tidy_del_graph [true; true])) = false.
 Proof. exact raising_outside_try_example. Qed.
+
+(* truthiness is not identity once the inner class has __len__: the empty store (size 0) is replaced *)
+Example C20_singleton_guard_shapes :
+  singleton_ok (mkSing GTruthy false false) = true /\ singleton_ok (mkSing GIsNone true true) = true /\
+  singleton_ok (mkSing GTruthy true false) = false /\ singleton_witness (mkSing GTruthy true false) = Some 0 /\
+  replaces (mkSing GTruthy true false) (Some 0) = true /\ replaces (mkSing GTruthy true false) (Some 3) = false.
+Proof. exact singleton_shape_example. Qed.
